@@ -129,14 +129,28 @@ def locate_item(rel, kind, name, within=None, nth=1):
     texts = [t.text for t in toks]
     lo, hi = 0, len(toks)
     if within:
+        # several blocks may share the header text (e.g. two `impl Nat {`): search them in order
         w = norm(within)
-        k = _find_sub(texts, w)
-        if k < 0:
-            raise WeaveError(f"{rel}: enclosing block `{within}` not found")
-        b = k + len(w)
-        while b < len(toks) and toks[b].text != "{":
-            b += 1
-        lo, hi = b, match_close(toks, b)
+        start, last_err = 0, None
+        while True:
+            k = _find_sub(texts, w, start)
+            if k < 0:
+                if last_err:
+                    raise last_err
+                raise WeaveError(f"{rel}: enclosing block `{within}` not found")
+            b = k + len(w)
+            if toks[b].text != "{":
+                start = k + 1
+                continue
+            try:
+                return _locate_in(rel, src, toks, texts, kind, name, b, match_close(toks, b), nth, within)
+            except WeaveError as e:
+                last_err = e
+                start = k + 1
+    return _locate_in(rel, src, toks, texts, kind, name, lo, hi, nth, within)
+
+
+def _locate_in(rel, src, toks, texts, kind, name, lo, hi, nth, within):
     kw = ITEM_KW[kind]
     count = 0
     i = lo
